@@ -195,4 +195,58 @@ theorem filter_flatMap_key {β κ : Type} [DecidableEq κ] (keys : List κ) (F :
         · exact Or.inr
       simp [this]
 
+
+/-! ### helpers of the checker -/
+
+theorem all_congr_mem {β : Type} (l : List β) (f g : β → Bool) (h : ∀ a ∈ l, f a = g a) : l.all f = l.all g := by
+  induction l with
+  | nil => rfl
+  | cons x xs ih =>
+    simp only [List.all_cons]
+    rw [h x (by simp), ih (fun a ha => h a (by simp [ha]))]
+
+theorem any_congr_mem {β : Type} (l : List β) (f g : β → Bool) (h : ∀ a ∈ l, f a = g a) : l.any f = l.any g := by
+  induction l with
+  | nil => rfl
+  | cons x xs ih =>
+    simp only [List.any_cons]
+    rw [h x (by simp), ih (fun a ha => h a (by simp [ha]))]
+
+
+theorem nodupB_nodup (l : List Nat) (h : nodupB l = true) : l.Nodup := by
+  induction l with
+  | nil => exact List.nodup_nil
+  | cons a t ih =>
+    simp only [nodupB, Bool.and_eq_true, Bool.not_eq_eq_eq_not, Bool.not_true, List.contains_eq_mem,
+      decide_eq_false_iff_not] at h
+    exact List.nodup_cons.2 ⟨h.1, ih h.2⟩
+
+theorem nodup_nodupB (l : List Nat) (h : l.Nodup) : nodupB l = true := by
+  induction l with
+  | nil => rfl
+  | cons a t ih =>
+    rw [List.nodup_cons] at h
+    simp only [nodupB, Bool.and_eq_true, Bool.not_eq_eq_eq_not, Bool.not_true, List.contains_eq_mem,
+      decide_eq_false_iff_not]
+    exact ⟨h.1, ih h.2⟩
+
+/-- the in-order test of the checker gives: what remains of every group is a sublist of the input -/
+theorem groupsInOrder_sublist {α : Type} [DecidableEq α] (items out : List (Item α)) (h : groupsInOrder items out = true)
+    (k : α) : (restrict k out).Sublist items := by
+  by_cases hk : k ∈ out.map (·.grp)
+  · unfold groupsInOrder at h
+    rw [List.all_eq_true] at h
+    exact List.isSublist_iff_sublist.1 (h k ((mem_dedup _ k).2 hk))
+  · have : restrict k out = [] := by
+      unfold restrict
+      rw [List.filter_eq_nil_iff]
+      intro it hit
+      simp only [decide_eq_true_eq]
+      intro e; exact hk (List.mem_map.2 ⟨it, hit, e⟩)
+    rw [this]; exact List.nil_sublist _
+
+theorem mem_restrict {α : Type} [DecidableEq α] (k : α) (l : List (Item α)) (a : Item α) :
+    a ∈ restrict k l ↔ a ∈ l ∧ a.grp = k := by
+  unfold restrict; simp [List.mem_filter]
+
 end CryoCat.C07
